@@ -142,6 +142,13 @@ class IterFC(list):
         self.tag = TagD(tag)
 
     def fill(self, value):
+        # the first value initialises the element, which then switches to its working method
+        # (an attribute of the instance from then on)
+        del self[:]
+        self.fill = self._fill
+        self._fill(value)
+
+    def _fill(self, value):
         self.append(value)
 
     def compute(self):
@@ -1020,3 +1027,4 @@ RULE += (' Source branches are also instances of a user subclass of Source; plai
          'adapter around a run-only sequence (buffer_input / buffer_output / yield_on_remainder).')
 RULE += (' Splits of stateless branches (Sources, per-value sequences) are also run twice at the '
          'same time: two run() generators of one object consumed alternately.')
+RULE += (' The bare iterable fill/compute branch rebinds its fill method on its first value.')
